@@ -169,6 +169,9 @@ func runScenario(sc Scenario) M {
 			}
 		case "sleep":
 			time.Sleep(time.Duration(geti(op, "ms")) * time.Millisecond)
+		case "shutdown":
+			// the operator stops the server: the PARENT context of every handler.Handle is cancelled (ConnShutdown.tla)
+			l.cancel()
 		case "stacks":
 			// what the server's goroutines are doing right now (diagnosis of a scenario, not judged)
 			_, st := hagallGoroutines()
